@@ -25,6 +25,8 @@ pub enum StepIn {
     /// deliver Event::Run(p) (Core/Bridge) or build program p (direct hosts)
     Run { p: u32 },
     Noop,
+    /// a valid event with a payload of n bytes (the app treats it like Noop)
+    Big { n: u32 },
     Resolve { o: [u32; 3], val: u32, #[serde(default)] nt: bool },
     Drop { o: [u32; 3], #[serde(default)] nt: bool },
     Abort { c: [u32; 2], #[serde(default)] nt: bool },
@@ -111,6 +113,15 @@ pub trait Host {
         None
     }
     fn resolve(&mut self, o: [u32; 3], val: u32) -> Option<Obs>;
+    /// a valid event carrying n bytes
+    fn big(&mut self, _n: u32) -> Option<Obs> {
+        None
+    }
+    /// bridge only: the id this notification went out under is in the registry right now, so a (wrong)
+    /// answer to it is something the bridge has to reject rather than something it may panic on
+    fn note_answerable(&self, _o: [u32; 3]) -> bool {
+        false
+    }
     fn drop_req(&mut self, _o: [u32; 3]) -> Option<Obs> {
         None
     }
@@ -361,6 +372,10 @@ impl Host for CoreHost {
     fn noop(&mut self) -> Option<Obs> {
         let effs = self.core.process_event(Event::Noop);
         Some(self.obs(json!({"e":"event","ev":{"kind":"noop"}}), effs))
+    }
+    fn big(&mut self, n: u32) -> Option<Obs> {
+        let effs = self.core.process_event(Event::Data(vec![7; n as usize]));
+        Some(self.obs(json!({"e":"event","ev":{"kind":"data","n":n}}), effs))
     }
     fn resolve(&mut self, o: [u32; 3], val: u32) -> Option<Obs> {
         let req = self.held.get_mut(&o)?;
@@ -637,6 +652,18 @@ impl Host for BridgeHost {
         let r = self.call(Some(id), &self.enc(&val));
         Some(self.obs(json!({"e":"resolve","o":o,"val":val,"id":id}), r))
     }
+    fn big(&mut self, n: u32) -> Option<Obs> {
+        let r = self.call(None, &self.enc(&Event::Data(vec![7; n as usize])));
+        Some(self.obs(json!({"e":"event","ev":{"kind":"data","n":n}}), r))
+    }
+    fn note_answerable(&self, o: [u32; 3]) -> bool {
+        let Some(id) = self.ids.get(&o) else { return false };
+        let reg = match &self.bridge {
+            AnyBridge::Bin(b) => b.verif_registry(),
+            AnyBridge::Json(b) => b.verif_registry(),
+        };
+        reg.iter().any(|(i, _)| i == id)
+    }
     fn abort(&mut self, c: [u32; 2]) -> Option<Obs> {
         let f = self.ctx.aborts.lock().unwrap().get(&(c[0], c[1])).cloned()?;
         f();
@@ -791,6 +818,7 @@ pub fn make_host(name: &str, ctx: Arc<CaseCtx>) -> Box<dyn Host> {
 #[derive(Default)]
 struct Known {
     ops: Vec<([u32; 3], u32)>, // request stamp, number of resolutions sent
+    notes: Vec<[u32; 3]>,      // bridge: notifications handed over (no answer expected)
     kinds: HashMap<[u32; 3], &'static str>,
 }
 
@@ -812,6 +840,7 @@ pub fn run_case(case: &Case) -> Vec<Value> {
         let r = catch_unwind(AssertUnwindSafe(|| match step {
             StepIn::Run { p } => Some(host.run(*p)),
             StepIn::Noop => host.noop(),
+            StepIn::Big { n } => host.big(*n),
             StepIn::Resolve { o, val, nt } => {
                 if *nt {
                     host.set_notake(true);
@@ -837,7 +866,7 @@ pub fn run_case(case: &Case) -> Vec<Value> {
             Ok(Some(obs)) => {
                 for (i, op) in obs.new_ops.iter().enumerate() {
                     match obs.kinds.get(i) {
-                        Some(&"never") => {} // bridge: a notification has no outstanding id
+                        Some(&"never") => known.notes.push(op.o), // bridge: a notification has no outstanding id
                         Some(k) => {
                             known.kinds.insert(op.o, k);
                             known.ops.push((op.o, 0));
@@ -859,6 +888,9 @@ pub fn run_case(case: &Case) -> Vec<Value> {
                     }
                     StepIn::Drop { o, .. } => known.ops.retain(|k| k.0 != *o),
                     _ => {}
+                }
+                if let StepIn::Resolve { o, .. } = step {
+                    known.notes.retain(|k| k != o);
                 }
                 Some(obs.line)
             }
@@ -914,13 +946,34 @@ pub fn run_case(case: &Case) -> Vec<Value> {
                     }
                 }
             }
+            let bridge = case.host.starts_with("bridge");
+            if bridge && !known.notes.is_empty() && rng.random::<f64>() < 0.1 {
+                // a shell that answers a notification: as long as the bridge still knows the id, the answer has
+                // to be rejected (and must not reach anybody else)
+                let o = known.notes[rng.random_range(0..known.notes.len())];
+                if host.note_answerable(o) {
+                    let step = StepIn::Resolve { o, val: 99, nt: false };
+                    if let Some(l) = do_step(&mut host, &mut known, &step) {
+                        dead = l["e"] == "panic";
+                        lines.push(l);
+                        executed.push(step);
+                    }
+                    continue;
+                }
+                known.notes.retain(|k| *k != o);
+            }
             let crowded = pol.max_out > 0 && known.ops.len() > pol.max_out as usize;
             let step = if crowded && host.can_drop() && rng.random::<bool>() {
                 StepIn::Drop { o: known.ops[0].0, nt: false }
             } else if !crowded && x < pol.p_run && !case.table.progs.is_empty() && case.host != "direct" && case.host != "stream" {
                 StepIn::Run { p: rng.random_range(0..case.table.progs.len() as u32) }
             } else if x < pol.p_run + pol.p_noop {
-                StepIn::Noop
+                if bridge && rng.random::<f64>() < 0.15 {
+                    // payloads beyond any "reasonable" size are still valid input
+                    StepIn::Big { n: [70_000, 300_000, 1_100_000][rng.random_range(0..3)] }
+                } else {
+                    StepIn::Noop
+                }
             } else if x < pol.p_run + pol.p_noop + pol.p_abort && !host.abortable().is_empty() {
                 let a = host.abortable();
                 StepIn::Abort { c: a[rng.random_range(0..a.len())], nt: false }
